@@ -262,6 +262,7 @@ static int c02_main(server &S,char const *pname,long from,long count,bool quick,
 	}
 	bool hooks=hooks_seen;
 	long to=std::min<long>(cases.size(),from+count);
+	int opens=0;      // connections the front-end left unanswered: after a few of them stop waiting long
 	for(long idx=from;idx<to;idx++) {
 		c02case const &cs=cases[idx];
 		vt::rng r(seed*1000003+idx*3+proto);
@@ -295,7 +296,7 @@ static int c02_main(server &S,char const *pname,long from,long count,bool quick,
 		else {
 			if(cs.end=='h') shutdown(cfd,SHUT_WR);
 			int want=cs.nreq;
-			rawreply rr=read_reply(cfd,cs.end=='w'?10.0:6.0,[&](std::string const &d)->bool {
+			rawreply rr=read_reply(cfd,opens>=8?1.0:(cs.end=='w'?10.0:6.0),[&](std::string const &d)->bool {
 				if(cs.end!='w') return false;                 // wait for the close
 				if(proto==HTTP) { size_t at=0; for(int i=0;i<want;i++) { reply t; if(!parse_http(d,at,false,t)) return false; } return true; }
 				if(proto==FCGI) { size_t at=0; for(int i=0;i<want;i++) { reply t; if(!parse_fcgi(d,at,t)) return false; } return true; }
@@ -314,6 +315,7 @@ static int c02_main(server &S,char const *pname,long from,long count,bool quick,
 				if(p!=d.size()) rp.framed_ok=false;
 				while(at<rr.data.size()) { reply t; if(!parse_fcgi(rr.data,at,t,&gotvalues)) { if(!t.framed_ok) rp.framed_ok=false; break; } bool fo=rp.framed_ok && t.framed_ok; if(t.complete) { rp=t; nrep++; } rp.framed_ok=fo; }
 			}
+			if(rr.end=='t') opens++;
 			if(rr.end=='t' && cs.end!='w') kind="open";
 			else if(rr.end=='t' && nrep<want) kind="open";
 			else if(nrep>0) kind="status";
